@@ -939,9 +939,13 @@ def _readUrl(  # noqa: C901
         else:
             # BOM or @charset
             if isinstance(content, str):
-                contentEncoding, explicit = codec.detectencoding_unicode(content)
+                contentEncoding, explicit = codec.detectencoding_unicode(
+                    content, final=True
+                )
             else:
-                contentEncoding, explicit = codec.detectencoding_str(content)
+                contentEncoding, explicit = codec.detectencoding_str(
+                    content, final=True
+                )
 
             if explicit:
                 enctype = 2  # 2. BOM/@charset: explicitly
